@@ -1089,6 +1089,18 @@ func (c *Ctx) c18KeysetEntriesCarryFee() {
 					}
 					n++
 					check(f, o, in, c.OfAt(o, in, x.Val), "active keyset entry carries the fee")
+				case ssa.CallInstruction:
+					// the record handed to storage is what the entries are loaded from at the next start
+					d := c.P.Describe(x)
+					if d.Iface == nil || d.Iface.Name() != "SaveKeyset" || len(d.Args) < 1 {
+						continue
+					}
+					arg := d.Args[len(d.Args)-1]
+					if _, isPtr := arg.Type().Underlying().(*types.Pointer); !isPtr {
+						continue
+					}
+					n++
+					check(f, o, in, c.OriginsAt(o, in).ContentAt(arg, in), "stored keyset record carries the fee")
 				}
 			}
 		}
